@@ -445,6 +445,27 @@ async fn targeted_streams(me: &str, ctx: &mut Ctx, ty: &str, what: &str, case: &
     };
     let _ = &mut reply_if_rep;
     match what {
+        "xpub-repeated-subscriptions" => {
+            // every message a subscriber sends is a message of its own for XPUB.recv, also one
+            // that changes nothing (a repeated subscribe, a cancel of something never subscribed)
+            let msgs: Vec<Vec<u8>> = vec![b"\x01a".to_vec(), b"\x01a".to_vec(), b"\x00b".to_vec(), b"\x00a".to_vec(), b"\x00a".to_vec(), b"\x00a".to_vec(), b"\x01".to_vec(), b"\x01".to_vec()];
+            for m in &msgs {
+                a.send(&[m.clone()]);
+            }
+            for (i, m) in msgs.iter().enumerate() {
+                match recv_now(&mut sock).await {
+                    Some(Ok(got)) if got == vec![m.clone()] => ctx.count("xpub_redundant_subscription_messages_returned"),
+                    other => {
+                        ctx.violation_with(
+                            &lost(ty),
+                            format!("a subscriber sent 8 subscription messages, some of them redundant; message #{i} ({}) : XPUB.recv gave {other:?}", crate::refcodec::hex(m)),
+                            case.clone(),
+                        );
+                        return;
+                    }
+                }
+            }
+        }
         "reconnect-noticed" => {
             a.send(&wire(&crate::refcodec::tagged(1, 0, &[3])));
             if !matches!(recv_now(&mut sock).await, Some(Ok(_))) {
@@ -757,6 +778,9 @@ fn common_cases(tier: Tier, seed: u64, me: &str) -> Vec<Value> {
     for ty in FQ_TYPES {
         for what in ["reconnect-noticed", "unknown-command-then-short-message"] {
             v.push(json!({"kind": "targeted", "ty": ty, "what": what}));
+        }
+        if ty == "XPUB" {
+            v.push(json!({"kind": "targeted", "ty": ty, "what": "xpub-repeated-subscriptions"}));
         }
     }
     for ty in FQ_TYPES {
